@@ -7,7 +7,7 @@ per=$(( (C + P - 1) / P ))
 i=0
 while [ $i -lt $P ]; do
   f=$(( F + i * per ))
-  ( SIM_WATCHDOG_S=${SIM_WATCHDOG_S:-60} /verif/build/bin/$H --seed $S --from $f --count $per --trace-dir $D --cpu $i > $D/out$i.txt 2> $D/err$i.txt ) &
+  ( SIM_WATCHDOG_S=${SIM_WATCHDOG_S:-60} /verif/build/bin${VERIF_BIN_TAG:+-$VERIF_BIN_TAG}/$H --seed $S --from $f --count $per --trace-dir $D --cpu $i > $D/out$i.txt 2> $D/err$i.txt ) &
   i=$(( i + 1 ))
 done
 wait
